@@ -81,6 +81,17 @@ fn main() {
             }
             let ctx = make_ctx(&args[2], &args[3]);
             let started = Instant::now();
+            // last line of defence against a check that cannot finish (e.g. code under test spinning where
+            // no budget applies): give up as INCONCLUSIVE (exit 2), never as a violation
+            let limit: u64 = std::env::var("VERIF_WATCHDOG_S").ok().and_then(|s| s.parse().ok()).unwrap_or(if ctx.thorough() { 6 * 3600 } else { 2400 });
+            {
+                let prop = ctx.prop.clone();
+                std::thread::spawn(move || {
+                    std::thread::sleep(std::time::Duration::from_secs(limit));
+                    println!("INCONCLUSIVE property={} watchdog: the check did not finish within {} s", prop, limit);
+                    std::process::exit(2);
+                });
+            }
             // regression tier: every stored replay of this property first
             let mut out_pre: Option<Outcome> = None;
             if let Some(v) = pfv::replay::regressions(&ctx) {
